@@ -380,7 +380,7 @@ int process_start(pid_t *process,
       // child process when we're inheriting the parent standard streams. If we
       // don't call `exec`, the caller is responsible for closing the redirect
       // and exit handles.
-      if (redirect[i] != i) {
+      if (redirect[i] > STDERR_FILENO) {
         // Make sure the pipe is closed when we call exec.
         r = handle_cloexec(redirect[i], true);
         if (r < 0) {
